@@ -40,6 +40,7 @@ type Hist struct {
 	std   *Std
 	r     *rand.Rand
 	focus string
+	whale bool
 }
 
 func (h *Hist) user() *Acct { return h.w.Accts[h.r.Intn(len(h.w.Accts)-1)] } // last account is the feeder
@@ -367,6 +368,25 @@ func (h *Hist) genTx() *histTx {
 		}
 		a := h.amt(1_000_000, 5_000_000_000)
 		lev := []string{"1.5", "2", "3", "5", "0", "1"}[r.Intn(6)] // 0 = pure collateral top-up of an existing position
+		if h.whale && r.Intn(2) == 0 {
+			a = h.amt(3_000_000_000, 400_000_000_000)
+			lev = []string{"1.2", "1.5", "2", "0", "0"}[r.Intn(5)]
+		}
+		if lev == "0" && r.Intn(4) != 0 {
+			// aim the top-up at an existing position: its owner, side, pool and collateral asset
+			if all := app.PerpetualKeeper.GetAllMTPs(ctx); len(all) > 0 {
+				m := all[r.Intn(len(all))]
+				if o := w.byAddr[m.Address]; o != nil {
+					for _, q := range h.std.Pools {
+						if q.Id == m.AmmPoolId {
+							p = q
+						}
+					}
+					u, long, colDenom = o, m.Position == perptypes.Position_LONG, m.CollateralAsset
+					tx.req.Signer = o
+				}
+			}
+		}
 		price := h.std.Prices["ATOM"]
 		pos := perptypes.Position_LONG
 		tp := price.Mul(D([]string{"1.5", "2", "3", "5"}[r.Intn(4)]))
@@ -789,6 +809,9 @@ func runHist(t *testing.T, seed int64, n int, out *Out) {
 		}
 		std := w.SeedStandardAt(D(atomPrice))
 		h := &Hist{w: w, std: std, r: rand.New(rand.NewSource(hseed)), focus: focus}
+		// one history in five has whales: leveraged positions sized up to a large fraction of the pool (saturation, refusals
+		// by the pool-health and custody-backing checks)
+		h.whale = rand.New(rand.NewSource(hseed^0x3a1e)).Intn(5) == 0 || os.Getenv("VERIF_WHALE") != ""
 		// seed some claimed Eden / EdenB so commitment ops have something to work with
 		w.Seed(func(ctx sdk.Context) {
 			for _, a := range w.Accts[:4] {
